@@ -110,6 +110,11 @@ pub struct Choice {
   pub pre_before: u8,
   /// switching away here costs a preemption
   pub costly: bool,
+  /// 0: which thread runs next; 1: which message a load reads (option 0 = the newest); 2: whether a
+  /// `compare_exchange_weak` that would succeed fails spuriously (option 0 = no)
+  pub kind: u8,
+  /// deviations of this kind (stale reads / spurious failures) taken before this point
+  pub dev_before: u8,
 }
 
 #[derive(Clone, Debug)]
@@ -178,6 +183,13 @@ struct Eng {
   choice_keys: Vec<u64>,
   cache_keys: bool,
   bounded: bool,
+  /// budgets of the non-SC deviations (0 = loads read the newest message, weak CASes never fail spuriously)
+  stale_max: u8,
+  spur_max: u8,
+  stale: u8,
+  spur: u8,
+  /// the message the load in flight reads (weak mode)
+  pending_read: Option<u32>,
 }
 
 thread_local! {
@@ -235,11 +247,33 @@ fn decide(e: &mut Eng, cur_ok: bool, costly: bool) -> Option<usize> {
     let h = state_hash(e);
     e.state_hashes.push(h);
   }
-  e.choices.push(Choice { n: n as u8, chosen: c, pre_before: e.preempt, costly: cur_ok && costly });
+  e.choices.push(Choice { n: n as u8, chosen: c, pre_before: e.preempt, costly: cur_ok && costly, kind: 0, dev_before: 0 });
   if cur_ok && costly && c != 0 {
     e.preempt += 1;
   }
   Some(opts[c as usize])
+}
+
+/// a choice that is not about scheduling: `n` options, option 0 is the default (SC) behaviour
+fn decide_value(e: &mut Eng, n: usize, kind: u8) -> usize {
+  let pos = e.choices.len();
+  let c = if pos < e.prefix.len() { e.prefix[pos] } else { 0 };
+  if c as usize >= n {
+    e.viol.push(V { class: "machinery".into(), sig: "machinery:replay-divergence".into(), msg: format!("value choice {} of {} options at point {}", c, n, pos) });
+    e.aborting = true;
+    return 0;
+  }
+  if e.cache_keys {
+    let k = choice_key(e, true, true) ^ 0x5bd1e995u64.wrapping_mul(kind as u64 + 1);
+    e.choice_keys.push(k);
+  }
+  if e.hash_states {
+    let h = state_hash(e);
+    e.state_hashes.push(h);
+  }
+  let dev = if kind == 1 { e.stale } else { e.spur };
+  e.choices.push(Choice { n: n as u8, chosen: c, pre_before: e.preempt, costly: false, kind, dev_before: dev });
+  c as usize
 }
 
 #[inline]
@@ -509,9 +543,10 @@ impl Hook for H {
           }
         }
       }
+      let rd = e.pending_read.take();
       if let Some(hb) = e.hb.as_mut() {
         let mut out = vec![];
-        hb.atomic(cur, off, ev.size as usize, ev.kind, ev.success, ev.failure, ok, ev.file, ev.line, &mut out);
+        hb.atomic_at(cur, off, ev.size as usize, ev.kind, ev.success, ev.failure, ok, ev.file, ev.line, rd, old, new, &mut out);
         for (sig, msg) in out {
           e.viol.push(V { class: "hb-race".into(), sig, msg });
         }
@@ -521,6 +556,57 @@ impl Hook for H {
         e.trace.push(TraceEv { tid: cur, what: s });
       }
     });
+  }
+
+  fn load_value(&self, ev: &Event, latest: u64) -> u64 {
+    ENG.with(|e| {
+      let mut e = e.borrow_mut();
+      e.pending_read = None;
+      if e.observer || e.aborting || e.solo.is_some() || e.stale_max == 0 || e.stale >= e.stale_max || std::thread::panicking() {
+        return latest;
+      }
+      let cur = e.cur;
+      let in_img = ev.addr >= e.rg.base && ev.addr < e.rg.base + e.rg.cap;
+      let off = if in_img { ev.addr - e.rg.base } else { (1usize << 40) | ev.addr.wrapping_sub(e.rg.memory_box) };
+      let Some(hb) = e.hb.as_mut() else { return latest };
+      let cands = hb.load_candidates(cur, off, ev.success, latest);
+      if cands.len() < 2 {
+        return latest;
+      }
+      let c = decide_value(&mut e, cands.len().min(255), 1);
+      if c == 0 {
+        return latest;
+      }
+      e.stale += 1;
+      // a decision taken on an old value is not a reason to park: the next iteration may read a newer one
+      e.yield_epoch[cur] = u64::MAX;
+      e.pending_read = Some(cands[c].0);
+      if e.tracing {
+        let w = format!("stale read: message #{} ({:#x}) instead of the newest ({:#x})", cands[c].0, cands[c].1, latest);
+        e.trace.push(TraceEv { tid: cur, what: w });
+      }
+      cands[c].1
+    })
+  }
+
+  fn weak_cas_fails(&self, _ev: &Event) -> bool {
+    ENG.with(|e| {
+      let mut e = e.borrow_mut();
+      if e.observer || e.aborting || e.solo.is_some() || e.spur_max == 0 || e.spur >= e.spur_max || std::thread::panicking() {
+        return false;
+      }
+      let c = decide_value(&mut e, 2, 2);
+      if c == 0 {
+        return false;
+      }
+      e.spur += 1;
+      let cur = e.cur;
+      e.yield_epoch[cur] = u64::MAX;
+      if e.tracing {
+        e.trace.push(TraceEv { tid: cur, what: "spurious failure of compare_exchange_weak".into() });
+      }
+      true
+    })
   }
 
   fn spin(&self, snooze: bool) {
@@ -1011,6 +1097,10 @@ pub struct ExecOpts {
   pub cache: bool,
   /// the exploration is preemption-bounded (then the count is part of the state)
   pub bounded: bool,
+  /// at most this many loads read a message that is not the newest (release/acquire view model; needs `hb`)
+  pub stale: u8,
+  /// at most this many `compare_exchange_weak` calls that would succeed fail spuriously
+  pub spur: u8,
 }
 
 struct GenPool {
@@ -1169,6 +1259,11 @@ pub fn run_one(h: &Harness, prefix: &[u8], o: &ExecOpts) -> ExecOut {
     e.hist = vec![0; n + 2];
     e.cache_keys = o.cache;
     e.bounded = o.bounded;
+    e.stale_max = if e.hb.is_some() { o.stale } else { 0 };
+    e.spur_max = o.spur;
+    if e.stale_max > 0 {
+      e.hb.as_mut().unwrap().enable_weak();
+    }
   });
   // thread-owned arena values are created before the hook is armed (spawn happens-before start)
   let mut mines: Vec<Option<Arena>> = (0..n).map(|_| if h.own_arenas { Some(arena.clone()) } else { None }).collect();
@@ -1377,6 +1472,9 @@ pub struct ExploreCfg {
   pub max_execs: u64,
   /// prune prefixes that reach a state already expanded with at least the same remaining budget
   pub cache: bool,
+  /// budgets of the non-SC deviations (see `ExecOpts`)
+  pub stale: u8,
+  pub spur: u8,
 }
 
 pub struct ExploreStats {
@@ -1394,12 +1492,12 @@ pub fn explore(run: &Run, h: &Harness, xc: &ExploreCfg, tag: &str) -> ExploreSta
   let mut stack: Vec<Vec<u8>> = vec![vec![]];
   let mut st = ExploreStats { pruned: 0, states: 0, execs: 0, events: 0, capped: false, max_choices: 0, max_op_events: 0 };
   let bounded = xc.bound < 200;
-  let o = ExecOpts { tracing: false, hash_states: !xc.cache, hb: xc.hb, drain: xc.drain, cache: xc.cache, bounded };
+  let o = ExecOpts { tracing: false, hash_states: !xc.cache, hb: xc.hb, drain: xc.drain, cache: xc.cache, bounded, stale: xc.stale, spur: xc.spur };
   let mut seen: std::collections::HashMap<u64, u8> = std::collections::HashMap::new();
   // distinct states of this harness, merged into the run's counter once at the end
   let mut local_states: std::collections::HashSet<u64> = std::collections::HashSet::new();
   let mut pruned: u64 = 0;
-  crate::crashguard::set_case(crate::crashguard::head_of(&json!({"engine": "sched", "tag": tag, "harness": h, "hb": xc.hb, "drain": xc.drain})));
+  crate::crashguard::set_case(crate::crashguard::head_of(&json!({"engine": "sched", "tag": tag, "harness": h, "hb": xc.hb, "drain": xc.drain, "stale": xc.stale, "spur": xc.spur})));
   let mut first_trace: Option<Vec<String>> = None;
   let mut viol_execs = 0u32;
   while let Some(p) = stack.pop() {
@@ -1415,7 +1513,7 @@ pub fn explore(run: &Run, h: &Harness, xc: &ExploreCfg, tag: &str) -> ExploreSta
     // (an execution in which a violation was recorded may have gone through freed or foreign memory: its trace
     // is not expected to repeat)
     if st.execs <= 16 && out.viol.is_empty() && !out.cap_hit {
-      let o2 = ExecOpts { tracing: true, hash_states: false, hb: xc.hb, drain: xc.drain, cache: false, bounded };
+      let o2 = ExecOpts { tracing: true, hash_states: false, hb: xc.hb, drain: xc.drain, cache: false, bounded, stale: xc.stale, spur: xc.spur };
       let a = run_one(h, &p, &o2);
       let b = run_one(h, &p, &o2);
       if (a.trace != b.trace || a.choices.len() != out.choices.len()) && a.viol.is_empty() && b.viol.is_empty() {
@@ -1438,7 +1536,7 @@ pub fn explore(run: &Run, h: &Harness, xc: &ExploreCfg, tag: &str) -> ExploreSta
         property: prop.into(),
         signature: format!("{}:hang:event-cap", tag),
         message: format!("[{} {:?}] no progress: {} events without all threads finishing under a fair schedule", progs_str(&h.progs), (h.fl, h.shape), EVENT_CAP),
-        replay: json!({"engine": "sched", "tag": tag, "harness": h, "schedule": sched, "hb": xc.hb, "drain": xc.drain}),
+        replay: json!({"engine": "sched", "tag": tag, "harness": h, "schedule": sched, "hb": xc.hb, "drain": xc.drain, "stale": xc.stale, "spur": xc.spur}),
       });
     }
     for v in &out.viol {
@@ -1451,7 +1549,7 @@ pub fn explore(run: &Run, h: &Harness, xc: &ExploreCfg, tag: &str) -> ExploreSta
         property: prop.into(),
         signature: format!("{}:{}", tag, v.sig),
         message: format!("[{} fl={:?} shape={} unify={} min_seg={} schedule={:?}] {}", progs_str(&h.progs), h.fl, h.shape, h.unify, h.min_seg, sched, v.msg),
-        replay: json!({"engine": "sched", "tag": tag, "harness": h, "schedule": sched, "hb": xc.hb, "drain": xc.drain}),
+        replay: json!({"engine": "sched", "tag": tag, "harness": h, "schedule": sched, "hb": xc.hb, "drain": xc.drain, "stale": xc.stale, "spur": xc.spur}),
       });
     }
     for i in p.len()..out.choices.len() {
@@ -1473,6 +1571,9 @@ pub fn explore(run: &Run, h: &Harness, xc: &ExploreCfg, tag: &str) -> ExploreSta
       }
       let cost = c.pre_before + if c.costly { 1 } else { 0 };
       if cost > xc.bound {
+        continue;
+      }
+      if (c.kind == 1 && c.dev_before >= xc.stale) || (c.kind == 2 && c.dev_before >= xc.spur) {
         continue;
       }
       for alt in 1..c.n {
@@ -1514,7 +1615,7 @@ pub fn explore(run: &Run, h: &Harness, xc: &ExploreCfg, tag: &str) -> ExploreSta
 pub fn replay(case: &Value) -> i32 {
   let h: Harness = serde_json::from_value(case["harness"].clone()).expect("harness");
   let sched: Vec<u8> = if case.get("schedule").is_some() { serde_json::from_value(case["schedule"].clone()).expect("schedule") } else { case["idx"].as_array().map(|a| a.iter().map(|x| x.as_u64().unwrap() as u8).collect()).unwrap_or_default() };
-  let o = ExecOpts { tracing: true, hash_states: false, hb: case["hb"].as_bool().unwrap_or(false), drain: case["drain"].as_bool().unwrap_or(false), cache: false, bounded: true };
+  let o = ExecOpts { tracing: true, hash_states: false, hb: case["hb"].as_bool().unwrap_or(false), drain: case["drain"].as_bool().unwrap_or(false), cache: false, bounded: true, stale: case["stale"].as_u64().unwrap_or(0) as u8, spur: case["spur"].as_u64().unwrap_or(0) as u8 };
   crate::crashguard::set_case(crate::crashguard::head_of(&json!({"engine": "sched", "harness": h})));
   println!("replay sched: {} fl={:?} shape={} unify={} min_seg={} schedule={:?}", progs_str(&h.progs), h.fl, h.shape, h.unify, h.min_seg, sched);
   let a = run_one(&h, &sched, &o);
